@@ -161,6 +161,10 @@ class Driver:
             seen_sigs: T.Set[str] = set()
             for index, sc, out in sorted(violations, key=lambda v: v[0]):
                 sig = out.get('signature', out['vclass'])
+                for xs in out.get('extra_known') or []:
+                    xk = F.match(self.findings, chk.id, xs)
+                    if xk is not None:
+                        known_lines.setdefault(xk['signature'], f"KNOWN-FINDING: property={chk.id} {xk['what']}")
                 kf = F.match(self.findings, chk.id, sig)
                 if kf is not None:
                     known_lines.setdefault(kf['signature'], f"KNOWN-FINDING: property={chk.id} {kf['what']}")
@@ -227,7 +231,8 @@ class Driver:
             improved = False
             cands: T.List[T.Dict[str, T.Any]] = []
             try:
-                for c in chk.shrink(best):
+                gen = chk.shrink_from(best, best_out) if hasattr(chk, 'shrink_from') else chk.shrink(best)
+                for c in gen:
                     cands.append(c)
                     if len(cands) >= 4 * self.jobs:
                         break
